@@ -437,6 +437,9 @@ func (g *Generator) generateUnwrapMapMarshal(
 		// For scalar types, marshal the array directly with json
 		gf.P("// Marshal the unwrap field directly (the array of scalars)")
 		gf.P("arrayData, err := json.Marshal(wrapper.Get", unwrapFieldName, "())")
+		gf.P("if err == nil && string(arrayData) == \"null\" {")
+		gf.P("arrayData = []byte(\"[]\") // an empty list is [], not null")
+		gf.P("}")
 	}
 
 	gf.P("if err != nil {")
@@ -756,7 +759,10 @@ func (g *Generator) generateRootMapUnwrapMarshalJSON(gf *protogen.GeneratedFile,
 		// Root map with message values (no value unwrap)
 		g.generateRootMapMessageValueMarshal(gf, rootUnwrap, fieldName)
 	default:
-		// Root map with scalar values
+		// Root map with scalar values (an empty map is {}, not null)
+		gf.P("if x.", fieldName, " == nil {")
+		gf.P("return []byte(\"{}\"), nil")
+		gf.P("}")
 		gf.P("return json.Marshal(x.", fieldName, ")")
 	}
 
@@ -790,6 +796,9 @@ func (g *Generator) generateRootMapWithValueUnwrapMarshal(
 		gf.P("arrayData, err := json.Marshal(items)")
 	} else {
 		gf.P("arrayData, err := json.Marshal(wrapper.Get", unwrapFieldName, "())")
+		gf.P("if err == nil && string(arrayData) == \"null\" {")
+		gf.P("arrayData = []byte(\"[]\") // an empty list is [], not null")
+		gf.P("}")
 	}
 
 	gf.P("if err != nil {")
@@ -943,7 +952,10 @@ func (g *Generator) generateRootRepeatedUnwrapMarshalJSON(gf *protogen.Generated
 		// Suppress unused variable warning
 		_ = elementTypeIdent
 	} else {
-		// Scalar type - marshal directly
+		// Scalar type - marshal directly (an empty list is [], not null)
+		gf.P("if x.", fieldName, " == nil {")
+		gf.P("return []byte(\"[]\"), nil")
+		gf.P("}")
 		gf.P("return json.Marshal(x.", fieldName, ")")
 	}
 
